@@ -28,7 +28,7 @@ def describe(o):
     return (tuple(sorted(names)), fin, tuple(data), logged)
 
 
-def build(tree, layers_spec, limits=None, logx=False, logy=False, loglog=False, resolution=16, operation="sum", reuse=None, call_opts=None):
+def build(tree, layers_spec, limits=None, logx=False, logy=False, loglog=False, resolution=16, operation="sum", reuse=None, call_opts=None, nan_in_data=None):
     hooks = core_hooks()
     rec = Rec()
     hooks["ext"].update(np_hooks({
@@ -48,6 +48,11 @@ def build(tree, layers_spec, limits=None, logx=False, logy=False, loglog=False, 
         return f
     for nm in ("amin", "amax", "min", "max", "nanmin", "nanmax"):
         hooks["ext"]["numpy." + nm] = limit_reduce(nm)
+    if nan_in_data is not None:
+        # a reduction of the WHOLE data is NaN exactly when the data contain a NaN (numpy propagates it); infinities do not show this way
+        base_isnan = hooks["ext"].get("numpy.isnan")
+        hooks["ext"]["numpy.isnan"] = lambda x, *a, **k: bool(nan_in_data) if isinstance(x, Sc) and "limit(" in repr(x) and ", False, " in repr(x) else (
+            False if isinstance(x, Sc) and "limit(" in repr(x) else base_isnan(x, *a, **k))
     hooks["ext_default"] = ext_default
     hooks["builtins"] = {"abs": lambda x: Sc(Poly.sym(Fn("abs", x.r))) if isinstance(x, Sc) else abs(x)}
 
@@ -99,11 +104,11 @@ def check_hist2d(run, tree, aspects=("limits", "layers")):
         ("explicit Quantities in another unit", {"xmin": QT("XLO@km", "km"), "xmax": QT("XHI@km", "km"), "ymin": 1.0, "ymax": 4.0}, False),
         ("one end given, the other automatic", {"xmin": 2.0, "ymax": 4.0}, False),
     ]
-    for label, lim, logx in (cases if "limits" in aspects else []):
-        construct = "%s::limits[%s]" % (H2D, label)
+    for label, lim, logx, nan_in_data in ([c + (n_,) for c in cases for n_ in ((False, True) if len(c[1]) < 4 else (None,))] if "limits" in aspects else []):
+        construct = "%s::limits[%s%s]" % (H2D, label, "" if nan_in_data is None else (", data with a NaN" if nan_in_data else ", data without NaN (infinities possible)"))
         try:
             try:
-                rec, out = build(tree, [("RHO", "mean")], limits=dict(lim), logx=logx)
+                rec, out = build(tree, [("RHO", "mean")], limits=dict(lim), logx=logx, nan_in_data=nan_in_data)
             except (Raised, ProgramRaised) as e:
                 run.violated(construct, fi.where(), "raises %s" % e, "histogram2d(%s)" % label)
                 continue
